@@ -174,7 +174,8 @@ impl ListType {
     pub fn upper_bound(&self) -> ListBound {
         match self {
             Self::Open { .. } => ListBound::Infinite,
-            Self::Mixed(types) => ListBound::Numeric(types.len() - 1),
+            // an empty list has no valid index at all; `get_type_at_known_index` rejects index 0 for it
+            Self::Mixed(types) => ListBound::Numeric(types.len().saturating_sub(1)),
         }
     }
 
